@@ -4,7 +4,7 @@ mod test;
 use crate::{LuaFormatConfig, Printer, SourceText};
 use emmylua_parser::{
     LuaAstNode, LuaCallArgList, LuaChunk, LuaLanguageLevel, LuaParamList, LuaParser, LuaSyntaxKind,
-    LuaSyntaxNode, LuaTableExpr, LuaTableField, ParserConfig,
+    LuaSyntaxNode, LuaTableExpr, LuaTableField, LuaTokenKind, ParserConfig,
 };
 use rowan::{TextRange, TextSize};
 
@@ -69,11 +69,18 @@ pub fn reformat_range_in_chunk(
     let source_indent_prefix = line_indent_prefix(source_text, selected_range.start());
     let target_indent_prefix =
         target_indent_prefix(chunk.syntax(), source_text, selected_range, config);
-    let dedented = strip_base_indent(fragment, &source_indent_prefix);
+    // Lines that start inside a multi-line string are string content, not indentation: they
+    // are neither dedented before nor re-indented after formatting the fragment.
+    let source_string_lines = string_content_line_starts(chunk.syntax(), selected_range);
+    let dedented = strip_base_indent(fragment, &source_indent_prefix, &source_string_lines);
     let mut fragment_config = config.clone();
     fragment_config.output.insert_final_newline = fragment.ends_with('\n');
     let formatted = format_fragment(&dedented, level, &fragment_config)?;
-    let text = apply_base_indent(&formatted, &target_indent_prefix);
+    let formatted_root =
+        LuaParser::parse(&formatted, ParserConfig::with_level(level)).get_red_root();
+    let formatted_string_lines =
+        string_content_line_starts(&formatted_root, formatted_root.text_range());
+    let text = apply_base_indent(&formatted, &target_indent_prefix, &formatted_string_lines);
 
     Some(RangeFormatOutput {
         replace_range: selected_range,
@@ -412,8 +419,41 @@ fn contains_offset(range: TextRange, offset: TextSize) -> bool {
     range.start() <= offset && offset < range.end()
 }
 
-fn strip_base_indent(text: &str, indent_prefix: &str) -> String {
-    map_lines(text, |content, newline| {
+/// Offsets, relative to the start of `range`, of the lines that begin inside a string token
+/// spanning several lines (`[[ … ]]`, or a quoted string continued with `\` / `\z`).
+fn string_content_line_starts(root: &LuaSyntaxNode, range: TextRange) -> Vec<usize> {
+    let range_start = usize::from(range.start());
+    let range_end = usize::from(range.end());
+    let mut starts = Vec::new();
+    for token in root
+        .descendants_with_tokens()
+        .filter_map(|element| element.into_token())
+    {
+        if !matches!(
+            token.kind().to_token(),
+            LuaTokenKind::TkLongString | LuaTokenKind::TkString
+        ) {
+            continue;
+        }
+
+        let token_start = usize::from(token.text_range().start());
+        for (index, byte) in token.text().bytes().enumerate() {
+            let line_start = token_start + index + 1;
+            if byte == b'\n' && line_start >= range_start && line_start < range_end {
+                starts.push(line_start - range_start);
+            }
+        }
+    }
+
+    starts
+}
+
+fn strip_base_indent(text: &str, indent_prefix: &str, verbatim_line_starts: &[usize]) -> String {
+    map_lines(text, |offset, content, newline| {
+        if verbatim_line_starts.contains(&offset) {
+            return format!("{content}{newline}");
+        }
+
         let stripped = content.strip_prefix(indent_prefix).unwrap_or(content);
         let mut line = String::with_capacity(stripped.len() + newline.len());
         line.push_str(stripped);
@@ -422,12 +462,16 @@ fn strip_base_indent(text: &str, indent_prefix: &str) -> String {
     })
 }
 
-fn apply_base_indent(text: &str, indent_prefix: &str) -> String {
+fn apply_base_indent(text: &str, indent_prefix: &str, verbatim_line_starts: &[usize]) -> String {
     if indent_prefix.is_empty() {
         return text.to_string();
     }
 
-    map_lines(text, |content, newline| {
+    map_lines(text, |offset, content, newline| {
+        if verbatim_line_starts.contains(&offset) {
+            return format!("{content}{newline}");
+        }
+
         if content.is_empty() {
             return newline.to_string();
         }
@@ -440,11 +484,13 @@ fn apply_base_indent(text: &str, indent_prefix: &str) -> String {
     })
 }
 
-fn map_lines(text: &str, mut map: impl FnMut(&str, &str) -> String) -> String {
+fn map_lines(text: &str, mut map: impl FnMut(usize, &str, &str) -> String) -> String {
     let mut result = String::new();
+    let mut offset = 0;
     for line in text.split_inclusive('\n') {
         let (content, newline) = split_line_ending(line);
-        result.push_str(&map(content, newline));
+        result.push_str(&map(offset, content, newline));
+        offset += line.len();
     }
 
     result
